@@ -112,9 +112,9 @@ CHECKS = {
        "appendValuesIntoAnyVLog call produces (one vlog, ascending from some offset, empty values at offset 0; different txs anywhere = every commit schedule): "
        "truncate_safe (every value of a committed tx >= n that was readable stays readable, whatever the truncation returns), truncate_idempotent, "
        "truncate_monotone (n <= m: what TruncateUptoTx(n) deletes, TruncateUptoTx(m) deletes), headers_untouched + current_chunk_kept (only chunk files change, only removed, never the active one), "
-       "export_total, export_full_after_truncate (tx >= n exported in full, mutex free), export_releases_lock_partial; and witnesses of the negation for the two defects of the "
-       "current code: export_leaks_lock / export_leaks_lock_empty_value (F4: both 'partially truncated' exits keep _valBsMux, later ExportTx blocks) and "
-       "truncate_unsafe_for_inflight_writer (K6: values staged before the truncation by a tx that commits after it are deleted); empty_first_value_blocks_truncation (effectiveness gap). "
+       "export_total, export_full_after_truncate (tx >= n exported in full, mutex free), export_releases_lock (EVERY exit of the entry loop, the two 'partially truncated' errors included, "
+       "has released _valBsMux) + export_keeps_mutex_free (so no sequence of ExportTx calls blocks; the former failing histories of F4 are kept as examples); a witness of the negation for the defect "
+       "left in the code: truncate_unsafe_for_inflight_writer (K6: values staged before the truncation by a tx that commits after it are deleted); empty_first_value_blocks_truncation (effectiveness gap). "
        "Tie: real stores (concurrent committers, histories replicated in shuffled order so values land out of id order, MaxIOConcurrency 1..4, FileSize 48..1000, empty values, embedded on/off, "
        "ascending/repeated/out-of-range cuts, reopen): the observed placement (vlog, offset, length per entry) and chunk files are fed to the driver; tombstones (from the store's own log lines), "
        "error class, surviving chunk files, per-entry readability and ExportTx outcome incl. lock state are compared; independent oracle = recorded values, tx log/Alh/DualProof snapshots, "
@@ -122,8 +122,9 @@ CHECKS = {
   note=TB + " Modelled rather than verified: value bytes, digests and compression are not in the model (locations only); the tx log, index, AHT are represented by 'unchanged' (checked by the oracle on the real store); "
        "Go's random map iteration order over the tombstones is modelled as list order (vlogs are independent); multiapp's LRU of open chunk files, the vlog cache (disabled in the harness) and "
        "remote storage are not modelled; concurrency is abstracted into the arbitrary placement plus the explicit two-phase commit used in the K6 witness; the SQL/document level is oracle-only (no model). "
-       "the vlog lock manager (vLogsCond / fetchVLog / releaseVLog) is not modelled: the lost wake-up finding is oracle-only. Known findings (3 signatures) are genuine defects of /repo, see known_findings.json.",
-  technique="Lean 4 proof (fold invariants over the two walks, filter characterisation of the discard loop, pigeonhole for the early exit of the back walk; decide for the witnesses) + differential correspondence on real stores",
+       "the vlog lock manager (vLogsCond / fetchVLog / releaseVLog) is not modelled: the lost wake-up (repaired: Broadcast) is guarded by the oracle only (deterministic recipe + liveness bounds). "
+       "Known finding left: K6 (needs a design decision); the lock leak and the lost wake-up are under 'fixed' in known_findings.json.",
+  technique="Lean 4 proof (fold invariants over the two walks, filter characterisation of the discard loop, pigeonhole for the early exit of the back walk; decide for the witness and the examples) + differential correspondence on real stores",
   design="7/C14"),
  "C07": dict(
   text="Lean theorems over models that mirror the replication code (wire format of ExportTx/ReplicateTx as repaired in /repo - every length field behind its own check, proved panic-free for every byte string; the replica store: "
@@ -197,27 +198,30 @@ CHECKS = {
   technique="Lean 4 proof (list induction over a small executable spec) + differential correspondence against embedded/document and pkg/database + model-independent oracle with classified quirks",
   design="7/C19"),
  "C04": dict(
-  text="Lean theorems (unbounded histories, any index spec, any grouping of the log into bulks): index_refines_log — the model of indexer.indexSince/doIndexing "
-       "(source-prefix filter, non-indexable skip, source/target mappers, injective-mapping tombstone, IncreaseTs/BulkInsert on a multi-version map mirroring "
+  text="Lean theorems (unbounded histories, any index spec, any grouping of the log into bulks the indexer can form: BulksOf = non-empty bulks of at most MaxBulkSize "
+       "transactions, ONE transaction for an injective index as indexSince caps it): index_refines_log — the model of indexer.indexSince/doIndexing "
+       "(source-prefix filter, non-indexable skip, source/target mappers, injective-mapping tombstone = previous metadata + deleted, IncreaseTs/BulkInsert on a multi-version map mirroring "
        "tbtree's insert rules) never fails and leaves, for every key, exactly the versions LogView prescribes, where LogView is a comprehension over the committed "
-       "entries that knows nothing of bulks, buffers or trees; bulk_partition_independent / indexBulk_append; on any tree that refines the log: get_latest, "
-       "get_absent/deleted/expired_notfound, getBetween_exact, history_consecutive_revisions (+history_errors), scan_exact_sorted (sorted, exact membership, offset), "
-       "prefix_lookup_exact, logview_latest; one_live_mapped_key_per_row_partial for injective secondary indexes; read_filters_match_code (filter lists regenerated from the tree). "
-       "The code AS IT IS is mirrored too (key aliasing model; Quirks switches for the two injective-branch defects, detected behaviourally at every run so the tie stays exact before and after each repair) "
-       "and the negation is proved by concrete witnesses: index_refines_log_fails_with_aliasing (F1), stale_mapped_key_in_bulk, stale_mapped_key_expirable_prev, kvs_overflow_panics, "
-       "snapshot_history_wrong_revisions. Tie: real embedded/store with IndexOptions crossed (MaxBulkSize 1..16, adaptive bulks, flush/sync thresholds, node size at the "
+       "entries that knows nothing of bulks, buffers or trees; bulk_partition_independent (any two MaxBulkSize settings) / indexBulk_append; on any tree that refines the log: get_latest, "
+       "get_absent/deleted/expired_notfound, getBetween_exact, history_consecutive_revisions (+history_errors), snapshot_history_consecutive_revisions (Snapshot.History's own arithmetic), "
+       "scan_exact_sorted (sorted, exact membership, offset), prefix_lookup_exact, logview_latest; one_live_mapped_key_per_row_partial for injective secondary indexes (previous versions with any metadata); "
+       "kvs_never_overflows (the pre-allocated idx._kvs of 2*MaxTxEntries*MaxBulkSize slots holds every bulk the indexer can gather: no index-out-of-range panic) + indexBulkCap_eq_of_room; "
+       "read_filters_match_code and indexer_facts_match_code (filter lists; key copied into the KVT, _kvs length, lookup bound, one-tx cap for injective indexes — regenerated from the tree). "
+       "The model is the code as it stands after the repairs of the five indexer/reader defects this check found (see known_findings.json 'fixed'); the former failing inputs are kept as examples. "
+       "Tie: real embedded/store with IndexOptions crossed (MaxBulkSize 1..16, adaptive bulks, flush/sync thresholds, node size at the "
        "minimum, cache 1.., buffered-data limits, 1..4 indexes incl. SQL-shaped two-level injective mappers) over histories with overwrites, logical deletes, expirations, "
-       "non-indexable entries, empty values, many keys per tx, long shared prefixes and max-length keys, three commit modes (synchronous; indexers closed during a batch so that "
+       "non-indexable entries, empty values, up to MaxTxEntries keys per tx (injective layouts too), long shared prefixes and max-length keys, three commit modes (synchronous; indexers closed during a batch so that "
        "the bulk partition is known exactly; concurrent AsyncCommit writers), interleaved flush/compaction/close+reopen; after WaitForIndexingUpto every key is read through "
        "Get, GetBetween, GetWithPrefix, History (offsets/limits/orders), Snapshot.Get/History, KeyReader (ranges, prefixes, filters, offsets, history) and, in a second stage, "
-       "through pkg/database Get/Get-at-revision/GetAll/Scan/History/Count; every answer is compared with the Lean driver (which runs the indexer model in the same bulk partition, "
-       "aliased or owned as observed) and with an independent Go replay of the acknowledged commits (index content = log, each read API = function of the index content).",
+       "through pkg/database Get/Get-at-revision/GetAll/Scan/History/Count; every answer is compared with the Lean driver (which runs the indexer model in the same bulk partition) "
+       "and with an independent Go replay of the acknowledged commits (index content = log, each read API = function of the index content). Deterministic probes of every repaired defect run at "
+       "each check and report it under its old signature should it return (the driver then answers unsupported-variant as well).",
   note=TB + " Modelled rather than verified: the B-tree itself (nodes, cache, flush, history log, compaction, recovery) is abstracted to a sorted multi-version map — C10's subject; "
        "value offsets and tx metadata are not part of the compared answers; mappers are total functions; time is an injected `now` (the code uses time.Now(), the harness keeps expirations "
        "10^6 s away from it); which index serves a key (getIndexerFor iterates a Go map: nested target prefixes would make it order dependent) is fixed by using non-nested prefixes; "
-       "the asynchronous interleaving of indexer and writers is sampled (burst mode), not enumerated — no hook exists in /repo; when the bulk partition is unknown (burst) and a known defect "
+       "the asynchronous interleaving of indexer and writers is sampled (burst mode), not enumerated — no hook exists in /repo; when the bulk partition is unknown (burst) and a defect "
        "made the content partition dependent the Lean comparison of that case is skipped and counted (oracle still applies). one_live_mapped_key_per_row is proved for a target mapper over a "
-       "plain source index (no source mapper). Known findings: 7 signatures, all reproduced by deterministic probes on every run (see known_findings.json).",
+       "plain source index (no source mapper). Known finding left: db.Count counts deleted/expired keys (a maintainer decision); six repaired ones are listed under 'fixed' in known_findings.json.",
   technique="Lean 4 proof (refinement of a log comprehension by a bulk indexer on a sorted multi-version association list; list induction) + differential correspondence against the real embedded/store and pkg/database",
   design="7/C04"),
  "C03": dict(
